@@ -295,7 +295,7 @@
     /// one symbolic view operation with in-contract symbolic arguments; `counted`: ghost has a control block
     unsafe fn view_ops(b: &mut Bytes, g: &Ghost, counted: bool) {
         let op: u8 = kani::any();
-        kani::assume(op < 6);
+        kani::assume(op < 7);
         let base = b.ptr;
         let len = g.len;
         let r0 = if counted { cnt(g) } else { 0 };
@@ -381,9 +381,25 @@
                 assert!(b.ptr == base.add(n));
                 lo = n;
             }
-            _ => {
+            5 => {
                 b.clear();
                 hi = 0;
+            }
+            _ => {
+                // slice_ref of a sub-slice obtained through as_ref(): same view as slice(x..y)
+                let x: usize = kani::any();
+                let y: usize = kani::any();
+                kani::assume(x <= y && y <= len);
+                let sub = core::slice::from_raw_parts(base.add(x), y - x);
+                let s = b.slice_ref(sub);
+                assert!(s.len == y - x);
+                if y > x {
+                    assert!(s.ptr == base.add(x));
+                    extra_handles = 1;
+                    let i = any_below(y - x);
+                    assert!(s[i] == g.data[g.off + x + i]);
+                }
+                other = Some(s);
             }
         }
         assert!(b.len == hi - lo);
